@@ -757,6 +757,19 @@ func (p *typeParser) atom() *Ty {
 // LoadFoi reads package_info blocks (an independent reader of the .foi format).
 func (in *Inferer) LoadFoi(text string) {
 	pkg := ""
+	extTypes := map[string]map[string]bool{}
+	var qualify func(t *Ty, p string)
+	qualify = func(t *Ty, p string) {
+		if t == nil {
+			return
+		}
+		if t.Kind == KCon && extTypes[p][t.Name] {
+			t.Name = p + "." + t.Name
+		}
+		for _, a := range t.Args {
+			qualify(a, p)
+		}
+	}
 	for _, ln := range strings.Split(text, "\n") {
 		if i := strings.Index(ln, "//"); i >= 0 {
 			ln = ln[:i]
@@ -764,6 +777,18 @@ func (in *Inferer) LoadFoi(text string) {
 		t := strings.TrimSpace(ln)
 		if strings.HasPrefix(t, "package_info ") {
 			pkg = strings.TrimSpace(strings.TrimSuffix(strings.TrimPrefix(t, "package_info "), "="))
+			continue
+		}
+		if strings.HasPrefix(t, "type ") && pkg != "" && pkg != "_" {
+			// an external type declared by this package: written unqualified inside the block, qualified in Go
+			tn := strings.TrimSpace(strings.TrimPrefix(t, "type "))
+			if li := strings.Index(tn, "<"); li >= 0 {
+				tn = strings.TrimSpace(tn[:li])
+			}
+			if extTypes[pkg] == nil {
+				extTypes[pkg] = map[string]bool{}
+			}
+			extTypes[pkg][tn] = true
 			continue
 		}
 		if !strings.HasPrefix(t, "let ") || pkg == "" {
@@ -792,7 +817,9 @@ func (in *Inferer) LoadFoi(text string) {
 		}
 		func() {
 			defer func() { recover() }()
-			in.Globals[full] = &Scheme{Vars: vars, T: in.ParseType(ty, tp)}
+			pt := in.ParseType(ty, tp)
+			qualify(pt, pkg)
+			in.Globals[full] = &Scheme{Vars: vars, T: pt}
 		}()
 	}
 }
@@ -815,6 +842,7 @@ func NewInferer() *Inferer {
 	mono("add3", "int->int->int->int")
 	mono("inc", "int->int")
 	mono("gv", "int")
+	mono("gz", "int")
 	a, b := in.Fresh(), in.Fresh()
 	in.Globals["konst"] = &Scheme{Vars: []*Ty{a, b}, T: Fun(a, b, a)}
 	c, d := in.Fresh(), in.Fresh()
